@@ -6,6 +6,7 @@ import (
 
 	"github.com/nspcc-dev/bbolt"
 	cid "github.com/nspcc-dev/neofs-sdk-go/container/id"
+	"github.com/nspcc-dev/neofs-sdk-go/object"
 	oid "github.com/nspcc-dev/neofs-sdk-go/object/id"
 )
 
@@ -132,11 +133,21 @@ func (db *DB) GetGarbage(limit int) ([]TrashBin, error) {
 }
 
 func listGarbageObjects(cur *bbolt.Cursor, prefix byte, cnr cid.ID, limit int) []oid.ID {
-	var objs []oid.ID
+	var (
+		objs   []oid.ID
+		siErr  *object.SplitInfoError
+		parCur = cur.Bucket().Cursor()
+	)
 
 	for obj := range iterPrefixedIDs(cur, []byte{prefix}, oid.ID{}) {
 		if len(objs) >= limit {
 			break
+		}
+		// Records of a split parent (its garbage mark included) are dropped
+		// along with its last child only, removal of the parent itself is
+		// a no-op. Handed out, it would take a place in every batch until then.
+		if errors.As(getParentInfo(parCur, cnr, obj), &siErr) {
+			continue
 		}
 		objs = append(objs, obj)
 	}
